@@ -418,7 +418,7 @@ if "C12" in which:
     ])
 
 if "C14" in which:
-    put("C14", "Async.LogTargets Async.ShutdownTargets Async.ShutdownProofs", [
+    put("C14", "Async.LogTargets Async.ShutdownTargets Async.ShutdownProofs Codec.Bodies Parser.ReqWire Parser.ReqTargets Async.ReadsWTargets Async.FrameTargets Async.EpilogueTargets Async.ShutdownAnswerTargets Async.ShutdownAnswerProofs", [
         ("'in-flight requests complete': nothing inside a request looks at the stop listener - a handler run that completes without a "
          "shutdown request completes in exactly the same way (same result, same request state, same bytes read and written, same "
          "observations) whenever and however often shutdown is requested meanwhile", "handler_ignores_stop", "C14_inflight_handler_completes",
@@ -437,4 +437,10 @@ if "C14" in which:
          "shutdown_cut", "C14_shutdown_cut", ["shutdown_cut_stmt"]),
         ("non-vacuity: two keep-alive requests and an idle client; with the stop requested before scheduling step 2 the second run returns after "
          "the FIRST request (1 of 2 invocations, 48 of 96 log bytes), the undisturbed run serves both and then waits", "shutdown_cut_ex", "C14_shutdown_cut_example"),
+        ("'in-flight requests finish', on the DECODED transport log (corollary of C14_shutdown_cut and C07_epilogue_records): on a transport "
+         "without write faults, with handlers that await their reads and write to Stdout / Stderr, in the run with a shutdown requested at any "
+         "moment every handler invocation that was closed owns a stretch of the log that decodes completely and contains exactly one EndRequest "
+         "of its id (last, after the empty stream records); and either the invocations are the undisturbed run's, or the task returned with "
+         "EVERY invocation it started closed - none cut short - and these are an initial segment of the undisturbed run's", "shutdown_answers_inflight",
+         "C14_shutdown_answers_inflight", ["shutdown_answers_inflight_stmt"]),
     ])
